@@ -108,6 +108,63 @@ func zzC04_ClaimAtomic() {
 	zzReach("end")
 }
 
+// set with several fields = several events; prune --yes of several finished tasks = several
+// tombstones. Killed between (not inside) system calls: every item is as before or as after.
+func zzC04_SetAtomic() {
+	root := zzFSInit("1;winv=1;clean=1;Results=0")
+	opts, dir := zzFSOpts(root)
+	g0, err0 := loadGraph(dir)
+	zzAssume(err0 == nil)
+	id := zzString("id")
+	zzAssume(id != "")
+	zzProcBegin(true)
+	zzNoTornWrites()
+	_ = applySetUpdates(dir, opts, id, map[string]string{"title": "new-title", "body": "new-body"}, opts.AgentID, true)
+	zzProcAlive()
+	zzProcBegin(false)
+	g1, err1 := loadGraph(dir)
+	zzAssert(err1 == nil, "C04/set: store readable after the kill")
+	if err1 != nil {
+		return
+	}
+	for k, t := range g0.Tasks {
+		p := g1.Tasks[k]
+		if p == nil {
+			continue
+		}
+		before := p.Title == t.Title && p.Body == t.Body
+		after := p.Title == "new-title" && p.Body == "new-body"
+		zzAssert(before || after, "C04/set: after a kill a multi-field set is entirely absent or entirely present")
+	}
+	zzReach("end")
+}
+
+func zzC04_PruneAtomic() {
+	root := zzFSInit("2;winv=1;clean=1;Results=0")
+	opts, dir := zzFSOpts(root)
+	g0, err0 := loadGraph(dir)
+	zzAssume(err0 == nil)
+	n0 := zzCountTasks(g0)
+	zzProcBegin(true)
+	zzNoTornWrites()
+	plan, errP := runPrune(dir, opts, true)
+	aliveP := zzProcAlive()
+	zzProcBegin(false)
+	g1, err1 := loadGraph(dir)
+	zzAssert(err1 == nil, "C04/prune: store readable after the kill")
+	if err1 != nil {
+		return
+	}
+	n1 := zzCountTasks(g1)
+	if errP == nil {
+		zzAssert(n1 == n0 || n1 == n0-len(plan.PrunedIDs), "C04/prune: after a kill prune removed all of its targets or none")
+		if aliveP {
+			zzAssert(n1 == n0-len(plan.PrunedIDs), "C04/prune: an acknowledged prune is in effect")
+		}
+	}
+	zzReach("end")
+}
+
 // plan rewrites the log through a temp file + rename: killed anywhere, the log is the old one
 // or the new one.
 func zzC04_PlanAtomic() {
